@@ -72,8 +72,8 @@ def wrappers(prog):
             continue
         if f.short in ('convert', 'checkAddGroupChar'):
             continue
-        if not f.name.startswith('celma::format::detail::'):
-            continue
+        if not f.name.startswith('celma::format::detail::') or '(anonymous namespace)' in f.name:
+            continue        # file-local helpers are analysed where the wrappers call them
         res.append(f)
     return res
 
@@ -94,6 +94,8 @@ def p2p3(chk, prog, lens):
         for L in range(1, MAXLEN[bits] + 1):
             m = Machine(prog, L, None)
             m.val_bits = bits
+            if neg:
+                m.val_max = 1 << (bits - 1)       # the magnitude of a negative value of a signed type
             env = {}
             for p in f.params:
                 if p['t'] == 'char *':
